@@ -144,7 +144,8 @@ def check(ctx):
             ctx.ob("R1", ok, "%s runs exactly the statement make_query builds from its arguments, with the same bound values (%s)" % (f.name, variant), func=f,
                    sig="%s forwards %s" % (f.name, variant) if ok else "%s (%s) executes %s, make_query builds %s" % (f.name, variant, [h[0][-60:] + " " + str(h[1]) for h in have][:2],
                                                                                                                         [w[0][-60:] + " " + str(w[1]) for w in want][:2]))
-    _r3_counts(ctx)
+    ctx.attempt(_r3_counts)
+    ctx.attempt(_r_sorted)
 
 
 def _short(s):
@@ -236,6 +237,97 @@ def _check_trace(ctx, t, label, ft, lim, strand, ob, rev, on, valid_spec, select
         ok = g in cols or g == "(end - start)" or all(x in cols for x in base.replace("-", " ").replace("+", " ").split())
         ctx.ob("R2", ok, "ORDER BY term resolves to a column or alias of the SELECT list", func=mq,
                sig="ORDER BY term %s %s" % (g, "resolves" if ok else "does not resolve"), nontrivial=False)
+
+
+def _r_sorted(ctx):
+    """Filters and ordering evaluated on a created model database (mixed-case seqids, numeric-looking text columns, ties):
+    all_features / features_of_type return exactly the matching rows, each once, in the requested order; without order_by in
+    input order; the count equals the number iterated."""
+    from . import scen
+    import itertools as _it
+    f = require_func(ctx, "interface.FeatureDB.all_features")
+    fo = require_func(ctx, "interface.FeatureDB.features_of_type")
+    spec = [  # id, seqid, source, type, start, end, score, strand, frame
+        ("b2", "chr2", "srcB", "exon", 50, 60, "10", "-", "1"), ("a1", "chr10", "srcA", "gene", 5, 500, "9", "+", "."), ("c3", "Chr1", "srcA", "exon", 5, 20, ".", "+", "0"),
+        ("d4", "chr1", "srcC", "CDS", 100, 110, "100", "-", "2"), ("e5", "chr1", "srcA", "exon", 100, 300, "9", "+", "."), ("f6", "chrM", "srcB", "gene", 1, 16000, "1e3", ".", "."),
+        ("g7", "chr2", "srcB", "exon", 50, 60, "10", "-", "1"), ("h8", "\u00e4chr", "srcC", "mRNA", 7, 7, "2", "+", "."),
+    ]
+    lines = [scen.feature(i.upper(), ft, s_, e_, {"ID": [i]}, seqid=sq, source=src, score=sc, strand=st, frame=fr) for i, sq, src, ft, s_, e_, sc, st, fr in spec]
+    im, t = scen.run_create(ctx, "_GFFDBCreator", lines)
+    if not scen.returned(ctx, t, "create()", func=f, rule="R2"):
+        return
+    it, me, conn, t0 = scen.open_feature_db(ctx, im.db)
+    if not scen.returned(ctx, t0, "FeatureDB(dbfn)", func=f, rule="R2"):
+        return
+    it.summaries["interface.FeatureDB._feature_returner"] = lambda i, pos, kw, node: kw.get("id")
+    rec = {r[0]: r for r in spec}
+    order = [r[0] for r in spec]
+    attrs_json = {r[0]: '{"ID":["%s"]}' % r[0] for r in spec}
+    col = {"seqid": lambda r: r[1], "source": lambda r: r[2], "featuretype": lambda r: r[3], "start": lambda r: r[4], "end": lambda r: r[5], "score": lambda r: r[6],
+           "strand": lambda r: r[7], "frame": lambda r: r[8], "id": lambda r: r[0], "length": lambda r: r[5] - r[4], "file_order": lambda r: order.index(r[0]),
+           "attributes": lambda r: attrs_json[r[0]], "extra": lambda r: "[]", "bin": None}
+    valid = list(ctx.folder.const("constants", "_gffkeys_extra")) + ["file_order", "length"]
+    names = [k for k in valid if col.get(k) is not None]
+    ctx.floor("R2", len(names), 10, "sortable names with a reference column")
+    n_q = [0]
+    bad = {}
+
+    def run(qual, **kw):
+        n_q[0] += 1
+        tr = scen.call_method(ctx, it, me, qual, **kw)
+        if tr.result[0] != "return":
+            return "raises %s" % (tr.result[1],)
+        from ..absint import RaiseEx
+        try:
+            return list(tr.result[1])
+        except TypeError:
+            return "not iterable"
+        except RaiseEx as e:
+            return "raises %s: %s" % (e.exc, str(e.msg)[:80])
+
+    def matching(ft, strand):
+        fts = None if ft is None else ([ft] if isinstance(ft, str) else list(ft))
+        return [i for i in order if (fts is None or rec[i][3] in fts) and (strand is None or rec[i][7] == strand)]
+
+    def judge(label, got, want_ids, keys, reverse):
+        if not isinstance(got, list) or sorted(got) != sorted(want_ids):
+            bad.setdefault(label, "returns %s, the matching features are %s" % (got, want_ids))
+            return
+        if not keys:
+            if got != want_ids:
+                bad.setdefault(label, "returns %s, input order is %s" % (got, want_ids))
+            return
+        ks = [tuple(col[k](rec[i]) for k in keys) for i in got]
+        mono = all((a >= b) if reverse else (a <= b) for a, b in zip(ks, ks[1:]))
+        if not mono:
+            bad.setdefault(label, "returns %s with keys %s: not %s by %s" % (got, ks, "descending" if reverse else "ascending", list(keys)))
+    filters = [(None, None), ("exon", None), (("exon", "CDS"), None), (["gene"], "+"), (None, "-"), ("absent", None), (("mRNA", "gene", "exon"), "+")]
+    for ft, strand in filters:
+        want = matching(ft, strand)
+        kwf = dict(({"featuretype": ft} if ft is not None else {}), **({"strand": strand} if strand is not None else {}))
+        label = "featuretype=%r strand=%r" % (ft, strand)
+        judge("all_features(%s), no order_by" % label, run("interface.FeatureDB.all_features", **kwf), want, (), False)
+        if ft is not None:
+            judge("features_of_type(%s), no order_by" % label, run("interface.FeatureDB.features_of_type", **kwf), want, (), False)
+            if isinstance(ft, str) and strand is None:
+                n = scen.call_method(ctx, it, me, "interface.FeatureDB.count_features_of_type", featuretype=ft).result
+                if n != ("return", len(want)):
+                    bad.setdefault("count_features_of_type(%r)" % ft, "is %s, %d features are iterated" % (n[1:], len(want)))
+        for k in (names if (ft, strand) in filters[:3] or ctx.tier == "thorough" else names[:3]):
+            for rev in (False, True):
+                for form, ob in (("str", k), ("tuple", (k,))):
+                    judge("all_features(%s, order_by=%r, reverse=%s)" % (label, ob, rev), run("interface.FeatureDB.all_features", order_by=ob, reverse=rev, **kwf), want, (k,), rev)
+            if ft is not None:
+                judge("features_of_type(%s, order_by=%r)" % (label, k), run("interface.FeatureDB.features_of_type", order_by=k, **kwf), want, (k,), False)
+    pairs = list(_it.permutations(names, 2)) if ctx.tier == "thorough" else [("seqid", "start"), ("featuretype", "length"), ("strand", "score"), ("start", "file_order"), ("score", "end"), ("length", "seqid")]
+    for ks in pairs + [("seqid", "start", "end"), ("strand", "featuretype", "file_order")]:
+        for ob in (tuple(ks), list(ks)):
+            judge("all_features(order_by=%r)" % (ob,), run("interface.FeatureDB.all_features", order_by=ob), order, ks, False)
+    ctx.ob("R2", not bad, "filters and ordering on a model database: exactly the matching features, each once, in input order without order_by, ascending by the requested "
+           "column(s) (lexicographic for several; 'length' = end - start; 'file_order' = input order) and descending with reverse for a single column (%d queries over "
+           "%d sortable names x filters x forms)" % (n_q[0], len(names)), func=f,
+           sig="ordering and filters agree with a full scan" if not bad else "; ".join("%s %s" % kv for kv in sorted(bad.items())[:3])[:700])
+    ctx.extra["sorted_queries"] = n_q[0]
 
 
 def _r3_counts(ctx):
